@@ -4,5 +4,6 @@ CONSTANTS Callers = {c1, c2, c3}
  MaxRot = 0
  MaxAtt = 2
  FreshKey = FALSE
+ MaxJunk = 0
  Dev = {"GenIdOutsideLock"}
 CHECK_DEADLOCK FALSE
